@@ -400,7 +400,8 @@ theorem marker_lookalikes_untouched (skip : Bool) :
 theorem abandoned_stream_relays_what_was_read (cfg : Cfg) (host t0host : Bytes) (strm : Nat) (readRc : Bool)
     {sizeMeta : Nat} (hg : growthOk sizeMeta = true) {a0 : Cbuf.Cbuf}
     (ha0 : mkIndexBuf sizeMeta = some a0) (script : List Bytes)
-    (hdom : Spec.Dom05 (markerOf readRc) script.flatten = true) :
+    (hdom : Spec.Dom05 (markerOf readRc) script.flatten = true)
+    (hT : Spec.wholeTailBelow ≤ Gen.RELAY_TAILBUF) :     -- only for the C06 clause: the flush piece covers 8 KiB
     ∃ x rest : Bytes, x ++ rest = script.flatten ∧
       written (runAbandoned indexOps cfg host t0host strm readRc a0 script).ems =
         Spec.render (labelPrefix cfg.labels cfg.keep host) x ∧
@@ -420,7 +421,7 @@ theorem abandoned_stream_relays_what_was_read (cfg : Cfg) (host t0host : Bytes) 
     simp only [List.map_map, List.flatMap]
     rfl
   · intro hfix
-    have hto := tailEms_ok cfg host strm hfix _ (Spec.tail x) (Nat.lt_succ_self _) h0t
+    have hto := tailEms_ok cfg host strm hT hfix _ (Spec.tail x) (Nat.lt_succ_self _) h0t
     have hlen : ((Spec.lines x).map
         (Em.bytes ∘ fun l => (⟨strm, labelPrefix cfg.labels cfg.keep host ++ l⟩ : Em))).length =
         (Spec.lines x).length := by simp
